@@ -22,7 +22,7 @@ META = dict(
                "established per run by trace refinement (contract level: implied + RUP), not by a proof about the C++ text. "
                "Trusted: Coq kernel, extraction, ocaml/sat_driver.ml (int<->positive conversion), the OPENSMT_VERIF hooks, "
                "lib/sattrace.py.",
-    design_ref="DESIGN.md §7 C12, design/C12.md",
+    design_ref="DESIGN.md §7 C12 / design/C12.md",
     trusted_base=["Coq 8.16.1 kernel", "extraction: Require Import ExtrOcamlBasic ExtrOcamlString; no Extract Constant of our own",
                   "ocaml/sat_driver.ml (decimal int <-> positive/Z/N, line protocol)", "OPENSMT_VERIF clause-trace hooks (H1) in /repo",
                   "lib/sattrace.py, lib/scriptgen_sat.py"],
